@@ -232,13 +232,14 @@ func resolveIRI(ectx evaluationContext, prefixes *iri.PrefixManager, value strin
 		return nil
 	}
 
-	// If the prefix is empty and not found in prefix mappings, use default vocabulary
-	if valueSplit[0] == "" && defaultVocabulary != nil {
+	// If the prefix is empty and not found in prefix mappings, use the default prefix mapping of the host language
+	// (which @vocab does not change)
+	if hostDefault := ectx.Global.HostDefaultVocabulary; valueSplit[0] == "" && hostDefault != nil {
 		if len(valueSplit[1]) == 0 {
-			return rdf.IRI(*defaultVocabulary)
+			return rdf.IRI(*hostDefault)
 		}
 
-		return rdf.IRI(*defaultVocabulary + valueSplit[1])
+		return rdf.IRI(*hostDefault + valueSplit[1])
 	}
 
 	return rdf.IRI(value)
